@@ -24,6 +24,8 @@ func init() {
 		ee.RunOptParam(r)
 		ee.RunGlobalRef(r)
 		ee.RunResetOrder(r)
+		RunResetDef(p, r)
+		r.RequireMin("RESET-DEF", 2)
 		ee.RunLocks(r)
 		RunDoubleChecked(p, r, func(pkg string) bool { return strings.HasPrefix(pkg, modPath+"/constraint") || strings.HasPrefix(pkg, modPath+"/backend") })
 		RunHashClean(p, r, func(pkg string) bool { return strings.HasPrefix(pkg, modPath+"/backend/") })
